@@ -693,6 +693,13 @@ func (e *Env) quant(q string, args []ast.Expr) *Val {
 				extra += " (trg " + m + ")"
 			}
 		}
+		// sums with a compound offset (base + j, j + base): the shifted index is an instantiation point too
+		for _, m := range offsetTerms(body.T, bv) {
+			if !seen[m] {
+				seen[m] = true
+				extra += " (trg " + m + ")"
+			}
+		}
 	}
 	rng := "(and (<= " + lo.T + " " + bv + ") (< " + bv + " " + hi.T + ") (" + marker + " " + bv + ")" + extra + ")"
 	if q == "all" {
@@ -1000,6 +1007,22 @@ func (e *Env) call(x *ast.CallExpr) *Val {
 	case "sllen":
 		// sllen(g): length of a slice-sorted ghost value
 		return &Val{T: "(sl_len " + argv(0).T + ")", Ty: intT}
+	case "arrslice":
+		// arrslice(p): the slice p[:] of the heap array p points to (the view code gets by slicing it)
+		v := argv(0)
+		pt, ok := v.Ty.Underlying().(*types.Pointer)
+		if !ok {
+			return e.errorf("arrslice: not a pointer to an array")
+		}
+		at, ok := pt.Elem().Underlying().(*types.Array)
+		if !ok {
+			return e.errorf("arrslice: not a pointer to an array")
+		}
+		ref, ok := fx.ptrTerm(e.st, v)
+		if !ok {
+			return e.errorf("arrslice: local array")
+		}
+		return &Val{T: fmt.Sprintf("(mk_sl %s 0 %d %d)", ref, at.Len(), at.Len()), Ty: types.NewSlice(at.Elem())}
 	case "slstr":
 		// slstr(g, i): i-th element of a []string-sorted ghost value, read from the current heap
 		v, i := argv(0), argv(1)
@@ -1548,6 +1571,65 @@ func flattenAnd(t string) []string {
 	var out []string
 	for _, p := range splitSexps(t[5 : len(t)-1]) {
 		out = append(out, flattenAnd(p)...)
+	}
+	return out
+}
+
+// offsetTerms finds the subterms (+ a b) / (- a b) of t that have the variable bv as a direct
+// operand and no other bound variable (names containing '!') inside.
+func offsetTerms(t, bv string) []string {
+	var out []string
+	for i := 0; i+3 < len(t); i++ {
+		if t[i] != '(' || (t[i+1] != '+' && t[i+1] != '-') || t[i+2] != ' ' {
+			continue
+		}
+		// find the matching close
+		depth, j := 0, i
+		for ; j < len(t); j++ {
+			if t[j] == '(' {
+				depth++
+			} else if t[j] == ')' {
+				depth--
+				if depth == 0 {
+					break
+				}
+			}
+		}
+		if j >= len(t) {
+			continue
+		}
+		term := t[i : j+1]
+		// split direct operands
+		var ops []string
+		d, start := 0, 3
+		for k := 3; k < len(term)-1; k++ {
+			switch term[k] {
+			case '(':
+				d++
+			case ')':
+				d--
+			case ' ':
+				if d == 0 {
+					ops = append(ops, term[start:k])
+					start = k + 1
+				}
+			}
+		}
+		ops = append(ops, term[start:len(term)-1])
+		if len(ops) != 2 {
+			continue
+		}
+		direct, clean := false, true
+		for _, o := range ops {
+			if o == bv {
+				direct = true
+			} else if strings.Contains(o, "!") {
+				clean = false
+			}
+		}
+		if direct && clean && len(term) < 400 {
+			out = append(out, term)
+		}
 	}
 	return out
 }
